@@ -40,7 +40,11 @@ CLAIMED = {
               "user id, offered methods ([0], or [0,2] iff credentials); the list of messages sent as a function of the "
               "proxy's replies (credentials only if method 2 was selected); the constructors' rejections characterised "
               "(iff); a constructed SOCKS4/4a client has a NUL-free user id (after the fix of F16). Literals and tables are "
-              "re-extracted from the running code on every check. Correspondence byte-exact against the real clients."),
+              "re-extracted from the running code on every check. Correspondence byte-exact against the real clients. "
+              "The request builders SOCKS4._start (inherited by SOCKS4a), SOCKS5._destination_bytes and SOCKS5._authentication are "
+              "TRANSLATED from the Python source on every run; an interpreter of byte expressions runs them and theorems show every run "
+              "equal to the model's builders for all destinations, ports and credentials (C16_*_from_source; "
+              "C16_socks4a_source_request_parses composes this with the server-side parser)."),
         note=TB + "Host names are assumed NUL-free (guaranteed by NetAddress validation, C18); lone surrogates in credentials are outside the domain (note N2).",
         technique="Coq proof (parser round trips over symbolic byte lists) + behavioural fact extraction + vm_compute correspondence",
         ref='6/C16'),
